@@ -311,283 +311,6 @@ class TlshPack(Case):
 
     def impl(self, shape, args):
         from crysp.tlsh import TLSH
-        t = TLSH(shape['buckets'], chklen=shape['chk']).from_hash(args[0])
-        code = t.digest().lsh_code
-        return dict(code=code, valid=t.lsh_code_valid, ck=list(t.checksum), L=t.Lvalue, q1=t.q1_ratio, q2=t.q2_ratio, body=list(t.tmp_code), n=len(code))
-
-    def spec(self, shape, args):
-        h = list(args[0])
-        c = shape['chk']
-        sw = lambda x: ((x & 0xf) << 4) | (x >> 4)
-        return dict(code=args[0] if isinstance(args[0], bytes) else _b(h), valid=True, ck=[sw(x) for x in h[:c]], L=sw(h[c]), q1=h[c + 1] >> 4, q2=h[c + 1] & 0xf,
-                    body=h[c + 2:][::-1], n=len(h))
-
-
-def model_distance(x, y, c, lvalue=True):
-    "TLSH distance between two raw digests (paper / reference implementation 3.x scoring)"
-    sw = lambda v: ((v & 0xf) << 4) | (v >> 4)
-
-    def sel(cond, a, b):
-        if isinstance(cond, bool):
-            return a if cond else b
-        from symx.core import ite
-        return ite(cond, a, b)
-
-    def absd(a, b):
-        return abs(a - b)
-
-    def mn(a, b):
-        if isinstance(a, int) and isinstance(b, int):
-            return min(a, b)
-        from symx.core import sx_min
-        return sx_min(a, b)
-
-    def diffmod(a, b, n):
-        d0 = absd(a % n, b % n)
-        d1 = n - d0
-        return mn(d0, d1)
-    diff = 0
-    ck = False
-    for i in range(c):
-        ck = ck | (sw(y[i]) != sw(x[i]))
-    diff = sel(ck, diff + 1, diff)
-    if lvalue:
-        d = diffmod(sw(y[c]), sw(x[c]), 256)
-        diff = diff + sel(d <= 1, d, d * 12)
-    for f in (lambda v: v >> 4, lambda v: v & 0xf):
-        d = diffmod(f(y[c + 1]), f(x[c + 1]), 16)
-        diff = diff + sel(d <= 1, d, (d - 1) * 12)
-    # body: the library walks its (reversed) code arrays; the score is a sum over all 2-bit buckets
-    for a, b in zip(y[c + 2:][::-1], x[c + 2:][::-1]):
-        for t in range(4):
-            d = absd((a >> (2 * t)) & 3, (b >> (2 * t)) & 3)
-            diff = diff + d
-            diff = sel(d == 3, diff + d, diff)
-    return diff
-
-
-HASHED_INPUT = bytes((i * i * 7 + i * 13 + 5) & 0xff for i in range(300))
-
-
-class TlshDistance(Case):
-    prop = 'C19'
-    name = 'C19.tlsh_distance'
-    timeout_s = 900
-    bounds = ('distance(x,y) for ARBITRARY symbolic digests x,y of the 48-bucket configurations (checksum length 1 and 3) and the 128-bucket/1-byte one: equals the scoring model, is >= 0, '
-              'd(x,x)==0, d(x,y)==d(y,x), and object/bytes/mixed arguments agree - also for a digest object produced by really hashing a (concrete) input against its own bytes, a re-loaded copy and an arbitrary symbolic digest; lvalue flag both ways')
-    outside = '256-bucket digests and 128-bucket/3-byte for the distance (same code path, longer body loop)'
-
-    def shapes(self, tier):
-        for b, c in ((48, 1), (48, 3), (128, 1)) + (((128, 3), (256, 1)) if tier == 'thorough' else ()):
-            for what in ('model', 'self', 'sym', 'forms', 'hashed'):
-                for lv in (True, False):
-                    if what in ('self', 'forms', 'hashed') and not lv:
-                        continue
-                    yield dict(buckets=b, chk=c, what=what, lv=lv)
-
-    def mk(self, shape, src):
-        n = dlen(shape['buckets'], shape['chk'])
-        return (src.bytes('x', n), src.bytes('y', n))
-
-    def impl(self, shape, args):
-        from crysp.tlsh import TLSH, distance
-        x, y = args
-        w, lv = shape['what'], shape['lv']
-        if w == 'model':
-            return distance(x, y, lv)
-        if w == 'self':
-            return distance(x, x)
-        if w == 'sym':
-            return [distance(x, y, lv), distance(y, x, lv)]
-        if w == 'hashed':
-            # a digest object produced by actually hashing (its fields are what update()/final() leave behind, e.g. bytearrays)
-            H = TLSH(shape['buckets'], chklen=shape['chk'])
-            H(HASHED_INPUT, True)
-            code = H.lsh_code
-            return [distance(H, code), distance(code, H), distance(H, TLSH(shape['buckets'], chklen=shape['chk']).from_hash(code)),
-                    distance(H, y), distance(y, H)]
-        ox = TLSH(shape['buckets'], chklen=shape['chk']).from_hash(x)
-        oy = TLSH(shape['buckets'], chklen=shape['chk']).from_hash(y)
-        return [distance(ox, oy), distance(ox, y), distance(x, oy), ox.distance_to(oy)]
-
-    def spec(self, shape, args):
-        x, y = list(args[0]), list(args[1])
-        w, lv, c = shape['what'], shape['lv'], shape['chk']
-        d = model_distance(x, y, c, lv)
-        if w == 'model':
-            return d
-        if w == 'self':
-            return 0
-        if w == 'sym':
-            return [d, d]
-        if w == 'hashed':
-            from crysp.tlsh import TLSH
-            H = TLSH(shape['buckets'], chklen=c)
-            H(HASHED_INPUT, True)
-            code = list(H.lsh_code)
-            return [0, 0, 0, model_distance(code, y, c, lv), model_distance(y, code, c, lv)]
-        return [d, d, d, d]
-
-
-class TlshGate(Case):
-    prop = 'C19'
-    name = 'C19.tlsh_gate'
-    bounds = ('TLSH(cfg)(data, force) for data of 0..49 bytes (force True/False) and 50..255 bytes without force: the result is None (single path: the gate depends on the length only); '
-              'every bucket count, window size 4..8 at two lengths, both checksum lengths; data symbolic')
-
-    def shapes(self, tier):
-        for b, c in CFG:
-            for n in (0, 1, 4, 5, 49):
-                for force in (False, True):
-                    yield dict(buckets=b, chk=c, w=5, n=n, force=force)
-            for n in (50, 255):
-                yield dict(buckets=b, chk=c, w=5, n=n, force=False)
-        for w in (4, 6, 7, 8):
-            for n in (3, 49):
-                yield dict(buckets=128, chk=1, w=w, n=n, force=True)
-
-    def mk(self, shape, src):
-        # the gate only looks at the length: a short symbolic prefix keeps the (data-dependent) histogram update cheap
-        k = min(shape['n'], 1)
-        return (src.bytes('d', k),)
-
-    def impl(self, shape, args):
-        from crysp.tlsh import TLSH
-        data = args[0] + bytes((i * 37 + 11) & 0xff for i in range(shape['n'] - len(args[0])))
-        r = TLSH(shape['buckets'], wndsize=shape['w'], chklen=shape['chk'])(data, shape['force'])
-        return r
-
-    def spec(self, shape, args):
-        return None
-
-
-TRIPLETS = {4: [(2, 1, 2, 3), (3, 1, 2, 4), (5, 1, 3, 4)]}
-TRIPLETS[5] = TRIPLETS[4] + [(7, 1, 3, 5), (11, 1, 2, 5), (13, 1, 4, 5)]
-TRIPLETS[6] = TRIPLETS[5] + [(17, 1, 2, 6), (19, 1, 3, 6), (23, 1, 4, 6), (29, 1, 5, 6)]
-TRIPLETS[7] = TRIPLETS[6] + [(31, 1, 2, 7), (37, 1, 3, 7), (41, 1, 4, 7), (43, 1, 5, 7), (47, 1, 6, 7)]
-TRIPLETS[8] = TRIPLETS[7] + [(53, 1, 2, 8), (59, 1, 3, 8), (61, 1, 4, 8), (67, 1, 5, 8), (71, 1, 6, 8), (73, 1, 7, 8)]
-
-
-def tlsh_update_model(data, wsz, chklen):
-    """TLSH paper section 3.1: for every window position the salted Pearson hash of each triplet (last byte with two earlier ones)
-    increments a bucket; the checksum chains the Pearson hash of the two newest bytes"""
-    from refs.stream import lookup, store
-    import crysp.tlsh as T
-    P = list(T.PEARSON_T)        # the table itself is pinned by C19.tlsh_pearson (a permutation with the published first/last rows)
-
-    def pearson(salt, a, b, c):
-        h = P[salt]              # T[0 ^ salt]
-        for v in (a, b, c):
-            h = lookup(P, h ^ v)
-        return h
-    data = list(data)
-    bucket = [0] * 256
-    chk = [0] * chklen
-    for ew in range(wsz, len(data) + 1):
-        d0, d1 = data[ew - 1], data[ew - 2]
-        chk[0] = pearson(0, d0, d1, chk[0])
-        for k in range(1, chklen):
-            chk[k] = pearson(chk[k - 1], d0, d1, chk[k]) if isinstance(chk[k - 1], int) else _pearson_symsalt(P, chk[k - 1], d0, d1, chk[k])
-        for salt, i, j, k in TRIPLETS[wsz]:
-            bi = pearson(salt, data[ew - i], data[ew - j], data[ew - k])
-            store(bucket, bi, lookup(bucket, bi) + 1)
-    return bucket, chk
-
-
-def _pearson_symsalt(P, salt, a, b, c):
-    from refs.stream import lookup
-    h = lookup(P, salt)
-    for v in (a, b, c):
-        h = lookup(P, h ^ v)
-    return h
-
-
-class TlshUpdate(Case):
-    """the histogram / checksum stage of TLSH on symbolic data: every window size, both checksum lengths"""
-    prop = 'C19'
-    name = 'C19.tlsh_update'
-    timeout_s = 900
-    bounds = ('TLSH(buckets,w,c).update(data) for data of 0..w+2 (quick) / w+3 (thorough) SYMBOLIC bytes, every window size w in 4..8, checksum length 1 and 3: the 256-entry bucket histogram, the checksum '
-              'bytes and data_len equal the paper\'s sliding-window/Pearson model (the triplet salts and positions are compared entry by entry)')
-    outside = 'histograms of longer inputs (the number of symbolic table look-ups grows with 6..21 per position); update() called several times on one object (not demanded: the digest is defined one-shot)'
-
-    def shapes(self, tier):
-        extra = 2 if tier == 'quick' else 3
-        for w in (4, 5, 6, 7, 8):
-            for c in (1, 3):
-                for n in sorted(set([0, w - 1] + list(range(w, w + extra + 1)))):
-                    if tier == 'quick' and c == 3 and n not in (w - 1, w, w + 1):
-                        continue
-                    if w >= 7 and n > w + 1 and tier == 'quick':
-                        continue
-                    yield dict(w=w, chk=c, n=n, buckets=128 if w != 6 else 48)
-
-    def mk(self, shape, src):
-        return (src.bytes('d', shape['n']),)
-
-    def impl(self, shape, args):
-        from crysp.tlsh import TLSH
-        t = TLSH(shape['buckets'], wndsize=shape['w'], chklen=shape['chk'])
-        r = t.update(args[0])
-        return dict(same=r is t, bucket=list(t.a_bucket), chk=list(t.checksum), n=t.data_len, valid=t.lsh_code_valid)
-
-    def spec(self, shape, args):
-        b, c = tlsh_update_model(list(args[0]), shape['w'], shape['chk'])
-        return dict(same=True, bucket=b, chk=c, n=shape['n'], valid=False)
-
-
-def tlsh_final_model(bucket, buckets, q, data_len):
-    "code packing of the paper: 2 bits per bucket (0 below or at q1, 1 up to q2, 2 up to q3, 3 above), four buckets per byte from the low bits"
-    from symx.core import ite
-    q1, q2, q3 = q
-    code = [0] * (buckets // 4)
-    for bi in range(buckets):
-        bv = bucket[bi]
-        i, j = divmod(bi, 4)
-        if isinstance(bv, int):
-            v = 3 if bv > q3 else 2 if bv > q2 else 1 if bv > q1 else 0
-        else:
-            v = ite(bv > q3, 3, ite(bv > q2, 2, ite(bv > q1, 1, 0)))
-        code[i] = code[i] + (v << (2 * j))
-    return code
-
-
-class TlshPack(Case):
-    """the quantisation stage of TLSH.final on a histogram with SYMBOLIC entries (the quartile selection itself sorts and is not
-    encoded: find_quartiles is replaced by the quartiles the shape states, see the claim)"""
-    prop = 'C19'
-    name = 'C19.tlsh_pack'
-    timeout_s = 900
-    bounds = ('TLSH.final() on an object whose histogram has 8 SYMBOLIC entries (16-bit counts, assumed non-zero so that the population gate is a single path) among concrete ones, with the quartiles fixed by the shape '
-              '(find_quartiles stubbed to return them): tmp_code equals the 2-bit quantisation of every bucket against q1<q2<q3 (strictness of each comparison decided for all counts), the header ratios and '
-              'Lvalue are those of the shape, digest() has the configuration length and lays out checksum/Lvalue/ratios/code as the reload case expects; 48, 128 and 256 buckets')
-    outside = 'quartile selection by sorting (find_quartiles), the too-uniform gate on symbolic counts, l_capturing for symbolic lengths (floating point logarithm)'
-    stub_note = 'find_quartiles is overridden on the instance under test to return the three quartiles given in the shape (in the symbolic run and in replays alike)'
-
-    def shapes(self, tier):
-        for b in (48, 128, 256):
-            for q in ((2, 5, 9), (1, 2, 3)) if tier == 'quick' else ((2, 5, 9), (1, 2, 3), (1, 1, 1), (3, 3, 8), (7, 100, 1000)):
-                for c in (1, 3):
-                    yield dict(buckets=b, q=list(q), chk=c, dl=300 if q[0] != 1 else 5000)
-
-    def mk(self, shape, src):
-        return ([src.int('v%d' % i, 16, lo=1) for i in range(8)],)
-
-    def _hist(self, shape, vs):
-        b = shape['buckets']
-        h = [((i * 7 + 3) % 13) + 1 for i in range(256)]
-        for k, v in enumerate(vs):
-            h[(k * (b // 8) + k) % b] = v
-        return h
-
-    def stubs(self, shape):
-        from symx.harness import patched
-        import crysp.tlsh as T
-        q = [float(x) for x in shape['q']]
-        return patched([(T.TLSH, 'find_quartiles', lambda self: tuple(q))])
-
-    def impl(self, shape, args):
-        from crysp.tlsh import TLSH
         t = TLSH(shape['buckets'], chklen=shape['chk'])
         t.a_bucket = self._hist(shape, args[0])
         t.data_len = shape['dl']
